@@ -154,17 +154,17 @@ Proof.
   - eapply Permutation_in; eauto.
 Qed.
 
-(* ------------------------------------------------------------------ coercion + variable defaults *)
+(* ------------------------------------------------------------------ variable defaults + coercion *)
+(* the first two steps of [norm_var]: default extraction, then list coercion (order of be45b91) *)
 Definition norm_var_ni (q : quirks) (S : schema) (vd : vardef) (ms : list (bytes * json)) : list (bytes * json) :=
-  extract_default q vd (match obj_get (vd_name vd) ms with
-                        | Some v => set_member (vd_name vd) (coerce_j S v (vd_type vd)) ms
-                        | None => ms
-                        end).
-Definition normalise_ni (q : quirks) (S : schema) (vds : list vardef) (ms : list (bytes * json)) : list (bytes * json) :=
-  fold_left (fun ms vd => norm_var_ni q S vd ms) vds ms.
+  let ms1 := extract_default q vd ms in
+  match obj_get (vd_name vd) ms1 with
+  | Some v => set_member (vd_name vd) (coerce_j S v (vd_type vd)) ms1
+  | None => ms1
+  end.
 
 (* what default extraction puts into the variables for an absent variable *)
-Definition extracted (q : quirks) (vd : vardef) (d : value) : json :=
+Definition extracted (vd : vardef) (d : value) : json :=
   let dj := value_to_json d in
   if is_list (vd_type vd) then
     match dj with
@@ -175,10 +175,10 @@ Definition extracted (q : quirks) (vd : vardef) (d : value) : json :=
   else dj.
 
 (* the value the validator will find for a variable *)
-Definition norm_value (q : quirks) (S : schema) (vd : vardef) (ms : list (bytes * json)) : option json :=
+Definition norm_value (S : schema) (vd : vardef) (ms : list (bytes * json)) : option json :=
   match obj_get (vd_name vd) ms with
   | Some v => Some (coerce_j S v (vd_type vd))
-  | None => match vd_default vd with Some d => Some (extracted q vd d) | None => None end
+  | None => match vd_default vd with Some d => Some (coerce_j S (extracted vd d) (vd_type vd)) | None => None end
   end.
 
 Lemma obj_get_set_member_same : forall k v ms, obj_get k (set_member k v ms) = Some v.
@@ -200,44 +200,35 @@ Proof.
     + rewrite IH; auto.
 Qed.
 
-Lemma norm_var_ni_same : forall q S vd ms, obj_get (vd_name vd) (norm_var_ni q S vd ms) = norm_value q S vd ms.
+Lemma extract_default_eq : forall q vd ms,
+    extract_default q vd ms =
+    match vd_default vd, obj_get (vd_name vd) ms with
+    | Some d, None => (vd_name vd, extracted vd d) :: ms
+    | _, _ => ms
+    end.
 Proof.
-  intros. unfold norm_var_ni, norm_value, extract_default, extracted.
+  intros. unfold extract_default, extracted. destruct (vd_default vd); auto; destruct (obj_get (vd_name vd) ms); auto.
+Qed.
+
+Lemma norm_var_ni_same : forall q S vd ms, obj_get (vd_name vd) (norm_var_ni q S vd ms) = norm_value S vd ms.
+Proof.
+  intros. unfold norm_var_ni, norm_value. rewrite extract_default_eq.
   destruct (obj_get (vd_name vd) ms) as [v|] eqn:E.
-  - rewrite obj_get_set_member_same. destruct (vd_default vd); apply obj_get_set_member_same.
-  - rewrite E. destruct (vd_default vd); auto. simpl. rewrite bytes_eqb_refl. reflexivity.
+  - assert (E1 : match vd_default vd with Some _ => ms | None => ms end = ms) by (destruct (vd_default vd); auto).
+    rewrite E1, E. apply obj_get_set_member_same.
+  - destruct (vd_default vd) as [dv|].
+    + simpl. rewrite bytes_eqb_refl. simpl. rewrite bytes_eqb_refl. reflexivity.
+    + rewrite E. exact E.
 Qed.
 
 Lemma norm_var_ni_other : forall q S vd ms k, k <> vd_name vd -> obj_get k (norm_var_ni q S vd ms) = obj_get k ms.
 Proof.
-  intros. unfold norm_var_ni, extract_default.
-  set (ms1 := match obj_get (vd_name vd) ms with
-              | Some v => set_member (vd_name vd) (coerce_j S v (vd_type vd)) ms
-              | None => ms end).
+  intros q S vd ms k H. unfold norm_var_ni.
+  set (ms1 := extract_default q vd ms).
   assert (E1 : obj_get k ms1 = obj_get k ms).
-  { unfold ms1. destruct (obj_get (vd_name vd) ms); auto. apply obj_get_set_member_other. auto. }
-  destruct (vd_default vd); auto.
-  destruct (obj_get (vd_name vd) ms1); auto.
-  simpl. destruct (bytes_eqb k (vd_name vd)) eqn:E; auto. apply bytes_eqb_eq in E. congruence.
-Qed.
-
-Lemma normalise_ni_get : forall q S vds ms vd,
-    NoDup (map vd_name vds) -> In vd vds ->
-    obj_get (vd_name vd) (normalise_ni q S vds ms) = norm_value q S vd ms.
-Proof.
-  intros q S. unfold normalise_ni.
-  induction vds as [|v0 r IH]; simpl; intros ms vd Hnd Hin; [contradiction|].
-  inversion Hnd; subst.
-  destruct Hin as [->|Hin].
-  - (* later variables have other names *)
-    assert (Hkeep : forall l ms0, ~ In (vd_name vd) (map vd_name l) ->
-                                  obj_get (vd_name vd) (fold_left (fun ms1 vd0 => norm_var_ni q S vd0 ms1) l ms0) = obj_get (vd_name vd) ms0).
-    { induction l as [|v1 l IHl]; simpl; intros ms0 Hn; auto.
-      rewrite IHl by tauto. apply norm_var_ni_other. intros E. apply Hn. auto. }
-    rewrite Hkeep by auto. apply norm_var_ni_same.
-  - rewrite IH; auto. unfold norm_value.
-    rewrite norm_var_ni_other; auto.
-    intros E. apply H1. rewrite <- E. apply in_map. auto.
+  { unfold ms1. rewrite extract_default_eq. destruct (vd_default vd); auto. destruct (obj_get (vd_name vd) ms); auto.
+    simpl. destruct (bytes_eqb k (vd_name vd)) eqn:E; auto. apply bytes_eqb_eq in E. congruence. }
+  destruct (obj_get (vd_name vd) ms1); auto. rewrite obj_get_set_member_other; auto.
 Qed.
 
 (* keys stay unique *)
@@ -262,112 +253,61 @@ Proof.
     destruct (bytes_eqb k k'); simpl; [rewrite Hv, H2 | rewrite H1, IH]; auto.
 Qed.
 
-Definition var_default_ok (q : quirks) (S : schema) (d : dialect) (vd : vardef) : bool :=
+(* operation validity: the default of a variable is a value of its type (under the full reading [d]) *)
+Definition var_default_ok (S : schema) (d : dialect) (vd : vardef) : bool :=
   match vd_default vd with
   | None => true
-  | Some dv => json_nodup (extracted q vd dv) && coercible_j d S (extracted q vd dv) (vd_type vd)
+  | Some dv => json_nodup (value_to_json dv) && coercible_j d S (value_to_json dv) (vd_type vd)
   end.
 
+Lemma json_nodup_extracted : forall vd dv, json_nodup (extracted vd dv) = json_nodup (value_to_json dv).
+Proof.
+  intros. unfold extracted. destruct (is_list (vd_type vd)); auto.
+  destruct (value_to_json dv); auto; apply json_nodup_wrap_n.
+Qed.
+
+(* wrapping a single value to the full depth does not change the full reading (the list rule does the same) *)
+Lemma coercible_wrap_full : forall dI dD S j, jnull j = false -> (forall items, j <> JArr items) ->
+    forall t, coercible_j (Build_dialect true dI dD) S (wrap_n (list_depth t) j) t = coercible_j (Build_dialect true dI dD) S j t.
+Proof.
+  intros dI dD S j Hnn Hna. induction t as [n|t' IH|t' IH]; cbn [list_depth wrap_n]; auto.
+  - rewrite (coercible_j_eq _ S (JArr _) (TList t')). cbn [forallb]. rewrite andb_true_r. rewrite IH.
+    rewrite (coercible_j_eq _ S j (TList t')). destruct j; auto; try discriminate. exfalso. eapply Hna; eauto.
+  - rewrite (coercible_j_eq _ S (wrap_n _ _) (TNonNull t')). rewrite jnull_wrap_n.
+    rewrite (coercible_j_eq _ S j (TNonNull t')). rewrite Hnn.
+    destruct (list_depth t'); simpl; apply IH.
+Qed.
+
+Lemma coercible_extracted_full : forall dI dD S vd dv,
+    coercible_j (Build_dialect true dI dD) S (extracted vd dv) (vd_type vd)
+    = coercible_j (Build_dialect true dI dD) S (value_to_json dv) (vd_type vd).
+Proof.
+  intros. unfold extracted. destruct (is_list (vd_type vd)); auto.
+  destruct (value_to_json dv) eqn:E; auto; apply coercible_wrap_full; auto; intros; discriminate.
+Qed.
+
 Lemma norm_var_ni_nodup : forall q S d vd ms,
-    var_default_ok q S d vd = true -> json_nodup (JObj ms) = true -> json_nodup (JObj (norm_var_ni q S vd ms)) = true.
+    var_default_ok S d vd = true -> json_nodup (JObj ms) = true -> json_nodup (JObj (norm_var_ni q S vd ms)) = true.
 Proof.
   intros q S d vd ms Hd H. unfold norm_var_ni.
-  assert (H1 : json_nodup (JObj (match obj_get (vd_name vd) ms with
-                                 | Some v => set_member (vd_name vd) (coerce_j S v (vd_type vd)) ms
-                                 | None => ms end)) = true).
-  { destruct (obj_get (vd_name vd) ms) as [v|] eqn:E; auto.
+  set (ms1 := extract_default q vd ms).
+  assert (H1 : json_nodup (JObj ms1) = true).
+  { unfold ms1. rewrite extract_default_eq. unfold var_default_ok in Hd.
+    destruct (vd_default vd) as [dv|]; auto. destruct (obj_get (vd_name vd) ms) eqn:E; auto.
+    apply andb_true_iff in Hd. destruct Hd as [Hd _].
     rewrite json_nodup_obj in *. apply andb_true_iff in H. destruct H as [Hk Hv].
-    apply andb_true_iff. split.
-    - rewrite keys_set_member_present; auto. eapply obj_get_some_key; eauto.
-    - apply forallb_set_member; auto. intros k'. simpl. rewrite json_nodup_coerce.
-      rewrite forallb_forall in Hv. destruct (obj_get_in _ _ _ E) as [k2 [_ Hin]]. apply (Hv (k2, v)). auto. }
-  set (ms1 := match obj_get (vd_name vd) ms with
-              | Some v => set_member (vd_name vd) (coerce_j S v (vd_type vd)) ms
-              | None => ms end) in *.
-  unfold extract_default. unfold var_default_ok in Hd.
-  destruct (vd_default vd) as [dv|]; auto.
-  destruct (obj_get (vd_name vd) ms1) eqn:E; auto.
-  apply andb_true_iff in Hd. destruct Hd as [Hd _].
+    simpl. apply andb_true_iff. split.
+    - apply andb_true_iff. split; auto. apply negb_true_iff.
+      destruct (mem_bytes (vd_name vd) (map fst ms)) eqn:Em; auto.
+      apply mem_bytes_in in Em. apply obj_get_none in E. contradiction.
+    - rewrite json_nodup_extracted, Hd. auto. }
+  destruct (obj_get (vd_name vd) ms1) as [v|] eqn:E; auto.
   rewrite json_nodup_obj in *. apply andb_true_iff in H1. destruct H1 as [Hk Hv].
-  simpl. apply andb_true_iff. split.
-  - apply andb_true_iff. split; auto. apply negb_true_iff.
-    destruct (mem_bytes (vd_name vd) (map fst ms1)) eqn:Em; auto.
-    apply mem_bytes_in in Em. apply obj_get_none in E. contradiction.
-  - unfold extracted in Hd. rewrite Hd. auto.
+  apply andb_true_iff. split.
+  - rewrite keys_set_member_present; auto. eapply obj_get_some_key; eauto.
+  - apply forallb_set_member; auto. intros k'. simpl. rewrite json_nodup_coerce.
+    rewrite forallb_forall in Hv. destruct (obj_get_in _ _ _ E) as [k2 [_ Hin]]. apply (Hv (k2, v)). auto.
 Qed.
 
-Lemma normalise_ni_nodup : forall q S d vds ms,
-    forallb (var_default_ok q S d) vds = true -> json_nodup (JObj ms) = true ->
-    json_nodup (JObj (normalise_ni q S vds ms)) = true.
-Proof.
-  intros q S d. unfold normalise_ni. induction vds as [|vd r IH]; simpl; intros ms Hd H; auto.
-  apply andb_true_iff in Hd. destruct Hd as [H1 H2].
-  apply IH; auto. eapply norm_var_ni_nodup; eauto.
-Qed.
-
-(* the strict reading after coercion + defaults = the full reading of the request *)
-Lemma normalise_ni_coercible : forall q S dI dD vds ms,
-    NoDup (map vd_name vds) ->
-    forallb (var_default_ok q S (Build_dialect false dI dD)) vds = true ->
-    coercible_all (Build_dialect false dI dD) S (map strip_default vds) (JObj (normalise_ni q S vds ms))
-    = coercible_all (Build_dialect true dI dD) S vds (JObj ms).
-Proof.
-  intros q S dI dD vds ms Hnd Hdef. unfold coercible_all.
-  assert (Hfm : forall (f : vardef -> bool) l, forallb f (map strip_default l) = forallb (fun x => f (strip_default x)) l).
-  { induction l; simpl; auto. rewrite IHl. auto. }
-  rewrite Hfm.
-  assert (Hgen : forall l, (forall vd, In vd l -> In vd vds) ->
-                           forallb (fun x => coercible_var (Build_dialect false dI dD) S (JObj (normalise_ni q S vds ms)) (strip_default x)) l
-                           = forallb (coercible_var (Build_dialect true dI dD) S (JObj ms)) l).
-  { induction l as [|vd r IH]; simpl; intros Hl; auto.
-    rewrite IH by (intros; apply Hl; auto). f_equal.
-    assert (Hin : In vd vds) by (apply Hl; auto).
-    unfold coercible_var, coercible, strip_default, vd_hasdef. simpl.
-    rewrite (normalise_ni_get q S vds ms vd Hnd Hin). unfold norm_value.
-    destruct (obj_get (vd_name vd) ms) as [v|] eqn:E.
-    - apply coerce_correct.
-    - rewrite forallb_forall in Hdef. specialize (Hdef vd Hin). unfold var_default_ok in Hdef.
-      destruct (vd_default vd) as [dv|]; simpl; auto.
-      apply andb_true_iff in Hdef. tauto. }
-  apply Hgen. auto.
-Qed.
-
-(* ------------------------------------------------------------------ the pipeline *)
-Section PipelineProof.
-  Variable q : quirks.
-  Variable S : schema.
-  Variable reparse : bytes -> option json.
-
-  Definition vars_nodup (vds : list vardef) : bool := nodupb (map vd_name vds).
-  (* default injection leaves the variables as coercion and default extraction produced them *)
-  Definition inject_inert (vds : list vardef) (ms : list (bytes * json)) : Prop :=
-    normalise q S reparse vds ms = NOk (normalise_ni q S vds ms).
-
-  Theorem pipeline_iff_coercible : forall vds ms,
-      fields_nodup S = true ->
-      json_nodup (JObj ms) = true ->
-      vars_nodup vds = true ->
-      no_upload_ref S vds = true ->
-      ((q_field_null_default q = false /\ q_elem_null_default q = false) \/ defaults_nullable_only S = true) ->
-      forallb (var_default_ok q S (dialect_of q)) vds = true ->
-      inject_inert vds ms ->
-      (accepts q S reparse vds (JObj ms) = true
-       <-> coercible_all (Build_dialect true (q_int_any_number q) (q_id_any_number q)) S vds (JObj ms) = true).
-  Proof.
-    intros vds ms Hf Hj Hv HU HD Hdef Hinert.
-    unfold accepts, pipeline. rewrite Hinert.
-    set (ms' := normalise_ni q S vds ms).
-    assert (Hperm : Permutation (remap q vds) vds) by (apply remap_perm; eapply no_upload_ref_vars; eauto).
-    assert (Hval : validate q S (remap q vds) (JObj ms') = None
-                   <-> coercible_all (dialect_of q) S (map strip_default (remap q vds)) (JObj ms') = true).
-    { apply validate_iff_coercible; auto.
-      - eapply normalise_ni_nodup; eauto.
-      - right. eapply no_upload_ref_perm; eauto. }
-    rewrite (coercible_all_perm (dialect_of q) S (map strip_default vds) (map strip_default (remap q vds)) (JObj ms')) in Hval
-      by (apply Permutation_map; auto).
-    unfold dialect_of in Hval at 1. unfold ms' in Hval.
-    rewrite normalise_ni_coercible in Hval; auto.
-    - rewrite <- Hval. fold ms'. destruct (validate q S (remap q vds) (JObj ms')); split; intros; congruence.
-    - apply nodupb_NoDup. exact Hv.
-  Qed.
-End PipelineProof.
+(* ------------------------------------------------------------------ well-formedness of the operation *)
+Definition vars_nodup (vds : list vardef) : bool := nodupb (map vd_name vds).
